@@ -169,6 +169,31 @@ Example C04_run_example_tcp :
   end.
 Proof. vm_compute. split; reflexivity. Qed.
 
+(* ---------------- the hypothesis `boot` is what start-up produces: a daemon whose devices all use SHIPPED specifications
+   (etc/devices, t/etc: the data of C17, regenerated from the tree on every run) - any device names, plug lists, transports,
+   node / alias tables - satisfies it, so every whole-daemon theorem of this file, of C11, C15 and C20 applies to it with no
+   hypothesis left about the configuration (Proofs/SpecBridge.v) ---------------- *)
+From PM Require Import Gen.GenSpecs Proofs.SpecBridge.
+Definition shipped_device (c : text * spec * text * list plug) : device :=
+  let '(file, s, name, plugs) := c in mk_device name plugs (sp_scripts s) (sp_timeout s) (sp_ping s).
+Theorem C04_shipped_boot : forall compress nodes aliases specs pipes version tel (cfgs : list (text * spec * text * list plug)),
+  Forall (fun c => let '(file, s, _, _) := c in In (file, s) all_specs) cfgs ->
+  boot compress (mkDaemon nodes aliases specs pipes (map shipped_device cfgs) [] 1 [] version tel).
+Proof.
+  intros compress nodes aliases specs pipes version tel cfgs H. split; [reflexivity|]. split; [reflexivity|].
+  cbn [dm_devs]. induction H as [|[[[file s] name] plugs] r Hin Hr IH]; cbn [map]; constructor; [|exact IH].
+  cbn [shipped_device].
+  destruct (mk_device_invG compress name plugs (sp_scripts s) (sp_timeout s) (sp_ping s) (shipped_cfg_ok compress file s name plugs _ _ Hin)) as [H1 H2].
+  split; [exact H1|]. split; [exact H2|]. split; reflexivity.
+Qed.
+Example C04_shipped_boot_nonvacuous :
+  match all_specs with
+  | (file, s) :: _ => Forall (fun c => let '(f, sp, _, _) := c in In (f, sp) all_specs) [(file, s, bslit "d0", [mkPlug (bslit "1") (Some (bslit "n1"))])]
+  | [] => False
+  end.
+Proof. cbv beta iota delta [all_specs]. constructor; [left; reflexivity|constructor]. Qed.
+Print Assumptions C04_shipped_boot.
+
 Print Assumptions C04_daemon_invariant.
 Print Assumptions C04_pass_invariant.
 Print Assumptions C04_client_stream.
